@@ -20,6 +20,11 @@ void __verif_native_assume_fail(void);
 #endif
 /* reachability canary: must be refuted, otherwise the harness is vacuous (runner reports infra) */
 #define CANARY() __CPROVER_assert(0, "vacuity canary (must fail)")
+static inline unsigned int __verif_hardware_concurrency(void) { unsigned int n = 4;
+#ifdef __CPROVER
+  unsigned int m; __CPROVER_assume(1 <= m && m <= 64); n = m;
+#endif
+  return n; }
 static inline long __verif_abs_long(long x) { return x < 0 ? -x : x; }
 static inline int __verif_abs_int(int x) { return x < 0 ? -x : x; }
 static inline double __verif_abs_double(double x) { return x < 0 ? -x : x; }
